@@ -1,4 +1,5 @@
 import Crv.Ocsp
+import Crv.Proofs.Skeleton
 import Crv.Generated.Ocsp
 import Crv.Proofs.OcspCache
 /-!
@@ -163,5 +164,10 @@ example : (exec ocspFacts Vx {} hist).2.map (fun o => (o.t, o.hit, o.result, o.s
     [(0, false, .good, some 100), (50, true, .good, none), (50, false, .error, none), (90, true, .good, none),
      (110, false, .revoked, some 100)] := by decide
 end Example
+
+/-- The hand-written `Ocsp` model this property rests on was transcribed from exactly these sources: the fingerprints are
+recomputed from /repo on every run (tools/extract/skeleton.go), so any change to one of the functions breaks this obligation. -/
+theorem ocsp_sources_as_transcribed : Crv.Generated.skeletonOcsp = Crv.Skeleton.expectedOcsp :=
+  Crv.Skeleton.ocsp_sources_as_transcribed
 
 end Crv.Props.C14
